@@ -6,6 +6,7 @@ lengths, argmax certificate for the main upstream cell, point-in-cell test)."""
 import signal
 from fractions import Fraction
 
+import math
 import numpy as np
 from common import (gen_raster_net, gen_forest, gen_funcgraph, gen_shape, gen_dem_net, mk_raster, mk_vector,
                     canon_idx, ints, net_features)
@@ -275,6 +276,7 @@ def _raster_case(ctx, rng, max_cells):
     # ---- unit / transform
     unit = rng.choice(["cell", "m", "m"])
     latlon = False
+    geo_bad = []
     if unit == "m":
         g = rng.random()
         if d8 and g < 0.6:
@@ -336,12 +338,27 @@ def _raster_case(ctx, rng, max_cells):
         for i in range(n):
             if nxt[i] != n and nxt[i] != i:
                 tabf[i] = float(gis_utils.distance(i, nxt[i], ncol, latlon, transform))
+                # the step length is a parameter of the model, so it is checked here against an independent
+                # reference: metric lengths at the mean latitude of the two cell centres (either sign of yres)
+                if latlon:
+                    r0, r1 = i // ncol, nxt[i] // ncol
+                    dc = abs(nxt[i] % ncol - i % ncol)
+                    lat = math.radians(y0 + ((r0 + r1) / 2.0 + 0.5) * yres)
+                    dmy = 111132.92 - 559.82 * math.cos(2 * lat) + 1.175 * math.cos(4 * lat) - 0.0023 * math.cos(6 * lat)
+                    dmx = 111412.84 * math.cos(lat) - 93.5 * math.cos(3 * lat) + 0.118 * math.cos(5 * lat)
+                    ref = math.hypot(dmy * yres * abs(r1 - r0), dmx * xres * dc)
+                    if abs(tabf[i] - ref) > 1e-9 * max(1.0, ref) and not geo_bad:
+                        geo_bad.append((i, nxt[i], tabf[i], ref))
         steplen = lambda i: tabf[i]
         tab = [Fraction(x) * 2 ** KTAB for x in tabf]
         assert all(t.denominator == 1 for t in tab)
         stepargs = {"stepmode": 2, "steps": [int(t) for t in tab]}
         scale = 2 ** KTAB
     exact = kind in ("cell", "pyth")
+    if geo_bad:
+        i, j, got, ref = geo_bad[0]
+        ctx.fail({"op": "distance", "transform": [xres, 0.0, x0, 0.0, yres, y0], "shape": list(shape), "idx0": i, "idx1": j}, "spec",
+                 f"geographic step length {i}->{j} is {got!r} but the metric length at the mean latitude of the two cell centres is {ref!r}")
     # ---- starts
     nstart = 1 if not exact else rng.randint(1, 4)
     pool = valid if rng.random() < 0.9 else list(range(n))
